@@ -225,20 +225,48 @@ func TryRecv[T any](ch <-chan T) (T, bool, bool) {
 	return tryRecv(k, ch, chanKey(ch))
 }
 
-// TrySend is a single non-blocking send (buffered channels, or a parked real receiver).
+// TrySend is a single non-blocking send (`select { case ch <- v: ... default: ... }`).
 //
 //go:norace
 func TrySend[T any](ch chan<- T, v T) bool {
 	k := K
-	select {
-	case ch <- v:
-		if k != nil && !k.dying {
-			k.Notify(chanKeyS(ch))
+	if k == nil || k.dying {
+		select {
+		case ch <- v:
+			return true
+		default:
+			return false
 		}
-		return true
-	default:
+	}
+	if ch == nil {
 		return false
 	}
+	key := chanKeyS(ch)
+	k.yield(KSend, key)
+	select {
+	case ch <- v: // buffered with room (panics if closed, like the real thing)
+		k.Notify(key)
+		return true
+	default:
+	}
+	if cap(ch) == 0 {
+		// unbuffered: succeeds iff a receiver is parked on this channel; hand the value over through
+		// the kernel (the receiver takes it when it is scheduled next)
+		for _, a := range k.actors {
+			if a.st == stBlocked && (a.kind == KRecv || a.kind == KSelect) {
+				for _, x := range a.keys {
+					if x == key && len(k.pend[key]) == 0 {
+						p := &pendSend{actor: k.cur, val: &v}
+						atomic.StoreUint32(&p.hb, 1)
+						k.pend[key] = append(k.pend[key], p)
+						k.Notify(key)
+						return true
+					}
+				}
+			}
+		}
+	}
+	return false
 }
 
 // selChoose decides among ready cases (a scheduler decision when several are ready).
